@@ -654,7 +654,12 @@ class PrecipitateBase(GenericModel):
             # Compute driving force and precipitate composition (which helps with growth rate and impingement in multicomponent systems)
             # If driving force is negative, then we can skip the rest of the calculations (no nucleation barrier and no nucleation rate)
             aspectRatio = precParams.shapeFactor.aspectRatio(self.pData.Rcrit[self.pData.n, p])
-            _, volDG, self._precBetaTemp[p] = nucfuncs.volumetricDrivingForce(self.therm, xComp, T, precParams, aspectRatio, self.removeCache)
+            _, volDG, precBeta = nucfuncs.volumetricDrivingForce(self.therm, xComp, T, precParams, aspectRatio, self.removeCache)
+            if np.isnan(volDG):
+                #Driving force could not be computed (equilibrium did not converge), use the previous value which is still stored in Y
+                volDG = Y.drivingForce[0,p]
+            else:
+                self._precBetaTemp[p] = precBeta
             Y.drivingForce[0,p] = volDG
 
             # Y holds the values of the previous state, so clear the nucleation terms in case one of the checks below skips the calculation
